@@ -182,10 +182,13 @@ def error_trace(res):
 
 # ------------------------------------------------------------------ evidence
 def write_evidence(pid, tier, level, coverage, wall, violations, assumptions=()):
-    os.makedirs(EVID, exist_ok=True)
+    evid = EVID
+    if os.environ.get('VERIF_SKIP_MC') or os.environ.get('VERIF_NO_EVIDENCE'):
+        evid = os.path.join(WORK, 'evidence_debug')      # debugging runs never touch the real evidence
+    os.makedirs(evid, exist_ok=True)
     ev = {'property_id': pid, 'tier': tier, 'seed': seed(), 'level': level, 'coverage': coverage,
           'assumptions': list(assumptions), 'wall_s': round(wall, 2), 'violations': violations}
-    with open(os.path.join(EVID, pid + '.json'), 'w') as f:
+    with open(os.path.join(evid, pid + '.json'), 'w') as f:
         json.dump(ev, f, indent=1)
 
 def load_known():
